@@ -3,6 +3,7 @@ From OlaBase Require Import Bytes.
 From C10 Require Import Gen Model Lemmas ProofsRecv ProofsOpc Schedule ProofsSchedOpc.
 Local Open Scope N_scope.
 
+
 Lemma take_rev_spec : forall l n acc,
   take_rev l n acc =
     (rev_append (take (N.min n (len l)) l) acc, drop (N.min n (len l)) l, n - N.min n (len l)).
@@ -41,11 +42,14 @@ Lemma o_abs_eta s : o_abs {| f_rdata := rev_append (o_data s) []; f_off := len (
                             f_cap := o_cap s |} = s.
 Proof. unfold o_abs. cbn [f_rdata f_cap]. rewrite rev_append_invol. destruct s; reflexivity. Qed.
 
+Section WithReg.
+  Variable reg : N -> bool.
+
 (* one callback invocation: same result, same unread bytes, same deliveries, same hazard *)
 Lemma f_recv_sim f av : f_inv f ->
-  match f_recv f av with
-  | Some (f1, r, o) => o_recv (o_abs f) av = Some (o_abs f1, r, o) /\ f_inv f1
-  | None => o_recv (o_abs f) av = None
+  match (f_recv reg) f av with
+  | Some (f1, r, o) => (o_recv reg) (o_abs f) av = Some (o_abs f1, r, o) /\ f_inv f1
+  | None => (o_recv reg) (o_abs f) av = None
   end.
 Proof.
   intros [Hoff Hexp]. unfold f_recv, o_recv. cbn [o_abs o_data o_cap].
@@ -69,14 +73,14 @@ Proof.
   { intros e H4 [Hs|[_ Hn]]; [|exact Hn].
     destruct (Hexp e Hs) as [H4' ->]. unfold d. symmetry. apply o_expected_app.
     rewrite len_rev_append_nil. lia. }
-  assert (o_frames (S (length d)) d (f_cap f) =
+  assert ((o_frames reg) (S (length d)) d (f_cap f) =
           if len d <? 4 then Some ({| o_data := d; o_cap := f_cap f |}, [])
           else let e := o_expected d in
                let grow := f_cap f <? e + 4 in
                if grow && (e + 4 <? len d) then None
                else let cap1 := if grow then e + 4 else f_cap f in
                     if len d <? e + 4 then Some ({| o_data := d; o_cap := cap1 |}, [])
-                    else o_frames (S (length d)) d (f_cap f)) as Hfr.
+                    else (o_frames reg) (S (length d)) d (f_cap f)) as Hfr.
   { cbn [o_frames]. change OPC_HEADER_SIZE with 4.
     destruct (len d <? 4); [reflexivity|]. cbv zeta.
     destruct ((f_cap f <? o_expected d + 4) && (o_expected d + 4 <? len d)); [reflexivity|].
@@ -93,7 +97,7 @@ Proof.
       * unfold o_abs. cbn [f_rdata f_cap]. rewrite Ed. reflexivity.
       * split; cbn [f_off f_rdata f_exp]; [lia|]. intros e' He'. inversion He'; subst e'.
         split; [lia|]. rewrite Ed. exact Ee.
-    + rewrite Ed. destruct (o_frames (S (length d)) d (f_cap f)) as [[s1 out]|]; [|reflexivity].
+    + rewrite Ed. destruct ((o_frames reg) (S (length d)) d (f_cap f)) as [[s1 out]|]; [|reflexivity].
       split; [rewrite o_abs_eta; reflexivity|]. split; cbn [f_off f_rdata f_exp].
       * rewrite len_rev_append_nil. reflexivity.
       * discriminate.
@@ -109,7 +113,7 @@ Proof.
         -- unfold o_abs. cbn [f_rdata f_cap]. rewrite Ed. reflexivity.
         -- split; cbn [f_off f_rdata f_exp]; [lia|]. intros e' He'. inversion He'; subst e'.
            split; [apply N.ltb_ge in E4; lia|]. rewrite Ed. reflexivity.
-      * destruct (o_frames (S (length d)) d (f_cap f)) as [[s1 out]|]; [|reflexivity].
+      * destruct ((o_frames reg) (S (length d)) d (f_cap f)) as [[s1 out]|]; [|reflexivity].
         split; [rewrite o_abs_eta; reflexivity|]. split; cbn [f_off f_rdata f_exp].
         -- rewrite len_rev_append_nil. reflexivity.
         -- discriminate.
@@ -178,43 +182,44 @@ Lemma o_abs_init : o_abs f_init = o_init.
 Proof. reflexivity. Qed.
 
 Lemma opcf_chunk_free chunks : bytes_ok (concat chunks) = true ->
-  exists f, feed f_recv f_init chunks = Done f (ref_opc (concat chunks)).
+  exists f, feed (f_recv reg) f_init chunks = Done f ((ref_opc reg) (concat chunks)).
 Proof.
-  intros Hb. destruct (opc_chunk_free chunks Hb) as (s & E).
-  destruct (feed_ref fstate ostate f_recv o_recv o_abs f_inv f_recv_sim chunks f_init f_inv_init) as [R _].
+  intros Hb. destruct ((opc_chunk_free reg) chunks Hb) as (s & E).
+  destruct (feed_ref fstate ostate (f_recv reg) (o_recv reg) o_abs f_inv f_recv_sim chunks f_init f_inv_init) as [R _].
   rewrite o_abs_init, E in R.
-  destruct (feed f_recv f_init chunks) as [f o| |]; cbn [run_abs] in R; try discriminate.
+  destruct (feed (f_recv reg) f_init chunks) as [f o| |]; cbn [run_abs] in R; try discriminate.
   inversion R; subst. exists f. reflexivity.
 Qed.
 
 Lemma opcf_reachable_bounds chunks f out : bytes_ok (concat chunks) = true ->
-  feed f_recv f_init chunks = Done f out ->
+  feed (f_recv reg) f_init chunks = Done f out ->
   f_off f = len (f_rdata f) /\ f_off f < f_cap f /\ f_cap f <= 65539.
 Proof.
   intros Hb H.
-  destruct (feed_ref fstate ostate f_recv o_recv o_abs f_inv f_recv_sim chunks f_init f_inv_init) as [R Hi].
+  destruct (feed_ref fstate ostate (f_recv reg) (o_recv reg) o_abs f_inv f_recv_sim chunks f_init f_inv_init) as [R Hi].
   rewrite H in R, Hi. cbn [run_abs run_inv] in R, Hi. rewrite o_abs_init in R.
-  destruct (opc_reachable_bounds chunks _ _ Hb R) as [A B]. cbn [o_abs o_data o_cap] in A, B.
+  destruct ((opc_reachable_bounds reg) chunks _ _ Hb R) as [A B]. cbn [o_abs o_data o_cap] in A, B.
   rewrite len_rev_append_nil in A. destruct Hi as [Hoff _]. rewrite Hoff. auto.
 Qed.
 
 Lemma opcf_sched es : bytes_ok (arrived es) = true ->
-  (exists f pend out, run_sched fstate f_recv (f_init, [], []) es = Some (f, pend, out) /\
-     (pend = [] -> out = ref_opc (arrived es))) /\
-  (exists k f out, run_sched fstate f_recv (f_init, [], []) (es ++ repeat Invoke k) = Some (f, [], out) /\
-     out = ref_opc (arrived es)).
+  (exists f pend out, run_sched fstate (f_recv reg) (f_init, [], []) es = Some (f, pend, out) /\
+     (pend = [] -> out = (ref_opc reg) (arrived es))) /\
+  (exists k f out, run_sched fstate (f_recv reg) (f_init, [], []) (es ++ repeat Invoke k) = Some (f, [], out) /\
+     out = (ref_opc reg) (arrived es)).
 Proof.
   intros Hb.
-  assert (forall es', run_sched ostate o_recv (o_init, [], []) es' =
-                      cfg_abs fstate ostate o_abs (run_sched fstate f_recv (f_init, [], []) es')) as K.
+  assert (forall es', run_sched ostate (o_recv reg) (o_init, [], []) es' =
+                      cfg_abs fstate ostate o_abs (run_sched fstate (f_recv reg) (f_init, [], []) es')) as K.
   { intros es'. unfold run_sched. rewrite <- o_abs_init.
-    apply (sched_ref fstate ostate f_recv o_recv o_abs f_inv f_recv_sim es' (Some (f_init, [], []))).
+    apply (sched_ref fstate ostate (f_recv reg) (o_recv reg) o_abs f_inv f_recv_sim es' (Some (f_init, [], []))).
     exact f_inv_init. }
-  destruct (opc_sched es Hb) as [(s & pend & out & R & D) (k & s2 & out2 & R2 & D2)]. split.
-  - rewrite K in R. destruct (run_sched fstate f_recv (f_init, [], []) es) as [[[f p] o]|]; [|discriminate].
+  destruct ((opc_sched reg) es Hb) as [(s & pend & out & R & D) (k & s2 & out2 & R2 & D2)]. split.
+  - rewrite K in R. destruct (run_sched fstate (f_recv reg) (f_init, [], []) es) as [[[f p] o]|]; [|discriminate].
     cbn [cfg_abs] in R. inversion R as [[Ha Hp' Ho']]. eexists; eexists; eexists. split; [reflexivity|].
     intros Hp. assert (pend = []) as Hpe by congruence. specialize (D Hpe). congruence.
   - exists k. rewrite K in R2.
-    destruct (run_sched fstate f_recv (f_init, [], []) (es ++ repeat Invoke k)) as [[[f p] o]|]; [|discriminate].
+    destruct (run_sched fstate (f_recv reg) (f_init, [], []) (es ++ repeat Invoke k)) as [[[f p] o]|]; [|discriminate].
     cbn [cfg_abs] in R2. inversion R2 as [[Ha Hp' Ho']]. eexists; eexists. split; [reflexivity|congruence].
 Qed.
+End WithReg.
